@@ -152,6 +152,7 @@ struct emission {
     /* derived by em_prepare */
     unsigned char reqwire[96]; /* the answered request in wire form (responders) */
     size_t reqwn;
+    uint32_t reqbsize;         /* its block size */
     const RPFrame *req;        /* the frame regp_recv returned for it (em_receive_request) */
     bool mismatch;     /* acknowledgement for a request of the other word size */
     unsigned char *pl; /* payload memory: exact-size heap block (behind one pad octet when the payload sits at an odd address) */
@@ -160,7 +161,9 @@ struct emission {
     size_t plen;       /* payload octets the frame has to carry (mismatch: fixed after the emission) */
 };
 
-/* payload address parity for the emitters that take an octet payload */
+/* payload placement: the payload starts g_ploff octets behind the start of
+ * its (at least 8-aligned) heap block.  Octet payloads: 0 and 1; sixteen bit
+ * payloads: 0 and 2 (an address that is 2 modulo 4), boundary sizes also 4, 6. */
 static int g_ploff;
 
 static bool
@@ -173,6 +176,22 @@ static bool
 takes_octet_payload(const struct emission *m)
 {
     return m->e == E_REQ_WRITE8 || (m->e == E_ACK_PAYLOAD && !m->m16);
+}
+
+static bool
+takes_word_payload(const struct emission *m)
+{
+    return m->e == E_REQ_WRITE16 || (m->e == E_ACK_PAYLOAD && m->m16);
+}
+
+static const char *
+ploff_text(void)
+{
+    static char buf[64];
+    if (g_ploff == 0)
+        return "";
+    snprintf(buf, sizeof buf, " (payload %d octet(s) behind an aligned address)", g_ploff);
+    return buf;
 }
 
 /* option bits of the request a responder answers */
@@ -206,6 +225,7 @@ em_prepare(struct emission *m)
         rq.seq = m->seq;
         rq.addr = m->addr;
         rq.bsize = 3;
+        m->reqbsize = rq.bsize;
         if (m->anstype) {
             rq.payload = rpl;
             rq.plen = (rq.options & RO_W16) ? 6 : 3;
@@ -224,12 +244,13 @@ em_prepare(struct emission *m)
     /* Octet payloads may sit anywhere.  (Sixteen bit payloads are handed over
      * as uint16_t pointers, resp. as a void pointer that the library converts
      * to one: an odd address is not admissible there - the unchanged library
-     * itself loads misaligned words from it, as UBSan's alignment check shows.) */
-    const size_t off = (g_ploff && takes_octet_payload(m)) ? 1 : 0;
+     * itself loads misaligned words from it, as UBSan's alignment check shows;
+     * every even address is: 2, 4 and 6 octets behind an aligned one.) */
+    const size_t off = (g_ploff && (takes_octet_payload(m) || ((g_ploff & 1) == 0 && takes_word_payload(m)))) ? (size_t)g_ploff : 0;
     m->plbase = mc_exact(m->plbuf + off);
     m->pl = m->plbase + off;
     if (off)
-        m->plbase[0] = 0xee;
+        memset(m->plbase, 0xee, off);
     fill(m->pl, m->plbuf, m->content);
 }
 
@@ -455,7 +476,7 @@ one(int e, bool tcp, bool m16, int anstype, uint32_t addr, uint16_t seq, size_t 
     bool ok = true;
     unsigned char raw[RR_MAXFRAME], scratch[DRV_WIRE];
     size_t rn = 0;
-    mc_log("%s (request options %x%s) rc=%d emitted %zu octets", ENAME[e], em_request_options(&m), g_ploff ? "; payload at an odd address" : "", rc, A.outlen);
+    mc_log("%s (request options %x)%s rc=%d emitted %zu octets", ENAME[e], em_request_options(&m), ploff_text(), rc, A.outlen);
     mc_log_hex("wire", A.out, A.outlen);
     if (rc < 0 && A.outlen == 0) {
         /* a refused call that puts nothing on the wire emits no frame (e.g.
@@ -468,11 +489,15 @@ one(int e, bool tcp, bool m16, int anstype, uint32_t addr, uint16_t seq, size_t 
         return true;
     }
     if (rc < 0) {
-        mc_fail("C08/emit-succeeds", "%s%s returned %d with %zu octets on the wire", ENAME[e], g_ploff ? " (payload at an odd address)" : "", rc, A.outlen);
+        mc_fail("C08/emit-succeeds", "%s%s returned %d with %zu octets on the wire", ENAME[e], ploff_text(), rc, A.outlen);
         ok = false;
     }
     /* (1) wire octets vs reference.  The WORD-SIZE-16 bit of payload-less
-     * error responses is not fixed by the document: take it from the frame. */
+     * error responses is not fixed by the document: take it from the frame.
+     * Nor is their block size: doc/regp.txt 3 lets a response mirror every
+     * part of the request's header but type, checksum and meta, so the block
+     * size of such a response is the request's or (nothing follows) zero -
+     * whichever of the two the frame carries. */
     if (ok) {
         struct rr_frames fr;
         if (rr_unframe(tcp, A.out, A.outlen, scratch, &fr) != 1) {
@@ -481,6 +506,13 @@ one(int e, bool tcp, bool m16, int anstype, uint32_t addr, uint16_t seq, size_t 
         } else {
             if (e >= E_EWORDSIZE && e <= E_EIO && want.plen == 0 && fr.len[0] >= 2)
                 want.options = (want.options & ~(unsigned)RO_W16) | (scratch[fr.off[0]] & RO_W16);
+            if (e >= E_EWORDSIZE && e <= E_EIO && want.plen == 0 && fr.len[0] >= 12) {
+                const unsigned char *mm = scratch + fr.off[0] + 8;
+                const uint32_t b = ((uint32_t)mm[0] << 24) | ((uint32_t)mm[1] << 16) | ((uint32_t)mm[2] << 8) | mm[3];
+                if (b == 0 || b == m.reqbsize)
+                    want.bsize = b;
+                mc_log("payload-less error response carries block size %u (request: %u)", b, m.reqbsize);
+            }
             if (m.mismatch && fr.len[0] >= 2) {
                 /* the frame says which of the two word sizes it speaks; its
                  * payload then is n units of that size */
@@ -504,7 +536,7 @@ one(int e, bool tcp, bool m16, int anstype, uint32_t addr, uint16_t seq, size_t 
             rn = rr_build(raw, &want, false, false);
             const size_t wn = tcp ? rr_lenprefix(g_ref_wire, raw, rn) : rr_slip(g_ref_wire, raw, rn);
             if (wn != A.outlen || memcmp(g_ref_wire, A.out, wn) != 0) {
-                mc_fail("C08/wire-octets", "%s%s: emitted octets differ from the protocol document's encoding (%zu vs %zu octets)", ENAME[e], g_ploff ? " (payload at an odd address)" : "", A.outlen, wn);
+                mc_fail("C08/wire-octets", "%s%s: emitted octets differ from the protocol document's encoding (%zu vs %zu octets)", ENAME[e], ploff_text(), A.outlen, wn);
                 mc_log_hex("reference", g_ref_wire, wn);
                 ok = false;
             } else
@@ -747,6 +779,161 @@ family_sink_answers(bool th)
                 }
 }
 
+/* ---- acknowledgements emitted by regp_process ---------------------------------------- */
+/* The acknowledgement of a served read is emitted by the library out of the
+ * frame block the request was received into (the data sit behind the request's
+ * header: 12 octets on tcp, 14 on serial - a sixteen bit payload then starts
+ * at an address that is 2 modulo 4).  How much fits is the allocator's block
+ * size: block sizes are a dimension here.  Only what the library acknowledges
+ * is judged (whether a read is served is C06's and C09's business): the
+ * acknowledgement is the reference encoding of the backend's data and goes
+ * through the library's own receiver. */
+static void
+family_served_reads(bool th, const size_t *sizes, int nsz)
+{
+    static const size_t BLOCKS[] = { 128, 160, 256, 512, 1024, 2600 };
+    static const uint32_t PADDR[2] = { 0x64, 0xc0dbdcddu };
+    unsigned char raw[40], wire[96], scratch[DRV_WIRE];
+    static unsigned char data[2100];
+    char name[96];
+    for (int tcp = 0; tcp < 2; ++tcp)
+        for (int m16 = 0; m16 < 2; ++m16)
+            for (unsigned bi = 0; bi < sizeof BLOCKS / sizeof *BLOCKS; ++bi) {
+                if (!mc_case("served reads: regp_process %s mem%d, frame blocks of %zu octets x 2 addresses x read sizes", tcp ? "tcp" : "serial", m16 ? 16 : 8, BLOCKS[bi]))
+                    continue;
+                bool ok = true;
+                long acked = 0, other = 0;
+                for (int ai = 0; ai < 2 && ok; ++ai)
+                    for (int zi = 0; zi < nsz && ok; ++zi) {
+                        const size_t n = sizes[zi];
+                        if (n * (m16 ? 2u : 1u) + 80 > BLOCKS[bi])
+                            continue; /* cannot fit, whatever the receiver keeps for itself */
+                        struct rframe rq;
+                        memset(&rq, 0, sizeof rq);
+                        rq.type = RT_READ_REQ;
+                        rq.options = (m16 ? RO_W16 : 0u) | (tcp ? 0u : RO_HDCRC);
+                        rq.seq = (uint16_t)(0xc0da + zi);
+                        rq.addr = PADDR[ai];
+                        rq.bsize = (uint32_t)n;
+                        const size_t rn = rr_build(raw, &rq, false, false);
+                        const size_t wn = tcp ? rr_lenprefix(wire, raw, rn) : rr_slip(wire, raw, rn);
+                        drv_init(&A, tcp, m16, BLOCKS[bi], false);
+                        drv_feed(&A, wire, wn);
+                        RPMaybeFrame mf;
+                        memset(&mf, 0, sizeof mf);
+                        const int rrc = regp_recv(&A.p, &mf);
+                        A.outlen = 0;
+                        int prc = 0;
+                        if (rrc >= 0 && mf.error.id == 0 && mf.frame != NULL)
+                            prc = regp_process(&A.p, &mf);
+                        mc_trans(2);
+                        struct rr_frames fr;
+                        struct rframe got;
+                        const bool one_frame = A.outlen > 0 && rr_unframe(tcp, A.out, A.outlen, scratch, &fr) == 1 && fr.len[0] >= 12;
+                        if (one_frame)
+                            (void)rr_verdict(scratch + fr.off[0], fr.len[0], &got);
+                        if (!one_frame || got.type != RT_READ_RESP || got.meta != 0 || prc < 0) {
+                            other++; /* refused, answered otherwise or not at all: not an acknowledgement */
+                        } else {
+                            acked++;
+                            struct rframe want;
+                            memset(&want, 0, sizeof want);
+                            want.type = RT_READ_RESP;
+                            want.options = (m16 ? RO_W16 : 0u) | (tcp ? 0u : RO_HDCRC) | ((!tcp && n) ? RO_PLCRC : 0u);
+                            want.seq = rq.seq;
+                            want.addr = rq.addr;
+                            want.bsize = (uint32_t)n;
+                            want.plen = n * (m16 ? 2u : 1u);
+                            for (size_t i = 0; i < want.plen; ++i)
+                                data[i] = drv_read_octet(rq.addr, i);
+                            want.payload = data;
+                            static unsigned char rraw[RR_MAXFRAME];
+                            const size_t rrn = rr_build(rraw, &want, false, false);
+                            const size_t rwn = tcp ? rr_lenprefix(g_ref_wire, rraw, rrn) : rr_slip(g_ref_wire, rraw, rrn);
+                            snprintf(name, sizeof name, "acknowledgement of a read of %zu units at %08x", n, rq.addr);
+                            mc_log("%s: %zu octets on the wire", name, A.outlen);
+                            if (rwn != A.outlen || memcmp(g_ref_wire, A.out, rwn) != 0) {
+                                mc_fail("C08/wire-octets", "%s emitted by regp_process: octets differ from the protocol document's encoding of the backend's data (%zu vs %zu octets)", name, A.outlen, rwn);
+                                mc_log_hex("wire", A.out, A.outlen);
+                                mc_log_hex("reference", g_ref_wire, rwn);
+                                ok = false;
+                            } else
+                                ok = receive(&want, name, tcp, !m16, 8192, (zi & 1) ? DRV_SRC_OCTET : DRV_SRC_CHUNK, "block of 8192 octets");
+                        }
+                        if (mf.frame != NULL)
+                            regp_free(&A.p, mf.frame);
+                        drv_release(&A);
+                    }
+                mc_log("%ld reads acknowledged, %ld answered otherwise", acked, other);
+                mc_end(acked > 0, !ok ? "failed" : acked ? "served-read-roundtrip" : "refused");
+            }
+    (void)th;
+}
+
+/* ---- a session across regp_use_channel ------------------------------------------------ */
+/* "Successive requests of a session carry sequence numbers increasing by one":
+ * a session starts with regp_init / regp_reset_session; connecting another
+ * source and sink - of the same or of the other transport - is neither.
+ * Histories: a0 requests, then three times { regp_use_channel(serial | tcp);
+ * one or two requests }.  Every emitted request is a valid frame of the
+ * transport in use and carries its predecessor's number plus one. */
+static void
+family_channel_changes(void)
+{
+    unsigned char scratch[DRV_WIRE];
+    static const unsigned char pl[4] = { 0xc0, 0xdb, 3, 4 };
+    for (int t0 = 0; t0 < 2; ++t0)
+        for (unsigned a0 = 0; a0 < 3; ++a0) {
+            if (!mc_case("session across regp_use_channel: %s instance, %u requests, then 3 x { regp_use_channel(serial|tcp); 1 or 2 requests } (64 histories)", t0 ? "tcp" : "serial", a0))
+                continue;
+            bool ok = true;
+            long emitted = 0, changes = 0;
+            for (unsigned h = 0; h < 64 && ok; ++h) {
+                drv_init(&A, t0, true, 4096, false);
+                g_have_prev = false;
+                bool tcp = t0;
+                unsigned reqno = 0;
+                for (int step = -1; step < 3 && ok; ++step) {
+                    unsigned nreq = a0;
+                    if (step >= 0) {
+                        const bool nt = ((h >> (2 * step)) & 1u) != 0;
+                        nreq = 1 + ((h >> (2 * step + 1)) & 1u);
+                        Source src;
+                        Sink snk;
+                        chunk_source_init(&src, drv_src_chunk, &A);
+                        chunk_sink_init(&snk, drv_sink_chunk, &A);
+                        regp_use_channel(&A.p, nt ? RP_EP_TCP : RP_EP_SERIAL, src, snk);
+                        mc_trans(1);
+                        changes += nt != tcp;
+                        tcp = nt;
+                    }
+                    for (unsigned i = 0; i < nreq && ok; ++i, ++reqno) {
+                        A.outlen = 0;
+                        const int rc = (reqno % 3 == 1) ? regp_req_write8(&A.p, 0x100 + reqno, 4, pl) : (reqno % 3 == 2) ? regp_req_read8(&A.p, reqno, 2) : regp_req_read16(&A.p, reqno, 1);
+                        mc_trans(1);
+                        if (rc < 0 && A.outlen == 0)
+                            continue; /* refused, nothing emitted */
+                        struct rr_frames fr;
+                        struct rframe f;
+                        if (rc < 0 || rr_unframe(tcp, A.out, A.outlen, scratch, &fr) != 1 || rr_verdict(scratch + fr.off[0], fr.len[0], &f) != RV_OK) {
+                            mc_fail("C08/wire-octets", "history %u: request %u (on %s) is not a valid frame (rc=%d, %zu octets on the wire)", h, reqno, tcp ? "tcp" : "serial", rc, A.outlen);
+                            ok = false;
+                            break;
+                        }
+                        mc_log("history %u: request %u on %s carries sequence number %u", h, reqno, tcp ? "tcp" : "serial", f.seq);
+                        emitted++;
+                        char who[80];
+                        snprintf(who, sizeof who, "history %u: request %u (on %s, after regp_use_channel)", h, reqno, tcp ? "tcp" : "serial");
+                        ok = follows((long)f.seq, who);
+                    }
+                }
+                drv_release(&A);
+            }
+            mc_log("%ld requests emitted, %ld changes of transport", emitted, changes);
+            mc_end(emitted > 0 && changes > 0, !ok ? "failed" : emitted ? "session-across-channels" : "refused");
+        }
+}
+
 int
 main(int argc, char **argv)
 {
@@ -815,9 +1002,15 @@ main(int argc, char **argv)
                                             ok = one(e, tcp, m16, anstype, ADDRS[ai], SEQS[si], sizes[zi], c, 0, !isreq, rv);
                                             refused += g_refused;
                                             n++;
-                                            /* octet payloads: once more from an odd address */
-                                            if (ok && sizes[zi] > 0 && rv < 2 && (e == E_REQ_WRITE8 || (e == E_ACK_PAYLOAD && !m16))) {
-                                                g_ploff = 1;
+                                            /* octet payloads: once more from an odd address; sixteen bit payloads:
+                                             * once more from an address that is 2 modulo 4 (boundary sizes: also
+                                             * 4 and 6 octets behind an aligned address) */
+                                            const bool octpl = e == E_REQ_WRITE8 || (e == E_ACK_PAYLOAD && !m16);
+                                            const bool wordpl = e == E_REQ_WRITE16 || (e == E_ACK_PAYLOAD && m16);
+                                            for (int po = 1; po < 8 && ok && sizes[zi] > 0 && rv < 2; ++po) {
+                                                if (!(octpl && po == 1) && !(wordpl && (po == 2 || (sizes[zi] > 20 && c == 0 && (po == 4 || po == 6)))))
+                                                    continue;
+                                                g_ploff = po;
                                                 ok = one(e, tcp, m16, anstype, ADDRS[ai], SEQS[si], sizes[zi], c, 0, !isreq, rv);
                                                 g_ploff = 0;
                                                 refused += g_refused;
@@ -901,7 +1094,9 @@ main(int argc, char **argv)
         mc_end(emitted > 65536, !ok ? "failed" : emitted > 65536 ? "sequence-wraps" : emitted ? "sequence-partly-refused" : "refused");
     }
     family_sink_answers(th);
-    mc_finish(true, th ? "19 emitters x 2 transports x 2 memory widths x answered type x 7 addresses x 4 sequence numbers x sizes {0..70, boundary sizes up to 1000} x 4 contents (octet payloads at an even and an odd address) / 6 payload values x request option bits (word size equal/different; all 8 combinations for blocks <= 4; request frames as returned by the responder's own regp_recv, refused variants left out) x 3 receivers (block of 4096; blocks whose capacity, learned from the receiver's own answers to reference requests, is exactly the frame length / one octet more); 65537 consecutive requests per transport; sink answers: 19 emitters x 2 transports x 2 memory widths x octet/chunk sink x {EAGAIN, EINTR, short write 1, short write n-1, zero-length write, EIO} at every call position x a second answer at every later call position, frames of 0..8 units x 3 contents x 7 addresses / 2 payload values"
-                       : "19 emitters x 2 transports x 2 memory widths x answered type x 7 addresses x 4 sequence numbers x sizes {0..20, boundary sizes up to 1000} x 4 contents (octet payloads at an even and an odd address) / 6 payload values x request option bits (word size equal/different; all 8 combinations for blocks <= 4; request frames as returned by the responder's own regp_recv, refused variants left out) x 3 receivers (block of 4096; blocks whose capacity, learned from the receiver's own answers to reference requests, is exactly the frame length / one octet more); 65537 consecutive requests per transport; sink answers: 19 emitters x 2 transports x 2 memory widths x octet/chunk sink x {EAGAIN, EINTR, short write 1, short write n-1, zero-length write, EIO} at every call position x a second answer at the following call, frames of 0..5 units x 3 contents x 2 addresses / 2 payload values");
+    family_served_reads(th, sizes, nsz);
+    family_channel_changes();
+    mc_finish(true, th ? "19 emitters x 2 transports x 2 memory widths x answered type x 7 addresses x 4 sequence numbers x sizes {0..70, boundary sizes up to 1000} x 4 contents (octet payloads at an even and an odd address, sixteen bit payloads 0 and 2 octets behind an aligned address, boundary sizes also 4 and 6) / 6 payload values x request option bits (word size equal/different; all 8 combinations for blocks <= 4; request frames as returned by the responder's own regp_recv, refused variants left out) x 3 receivers (block of 4096; blocks whose capacity, learned from the receiver's own answers to reference requests, is exactly the frame length / one octet more); 65537 consecutive requests per transport; sink answers: 19 emitters x 2 transports x 2 memory widths x octet/chunk sink x {EAGAIN, EINTR, short write 1, short write n-1, zero-length write, EIO} at every call position x a second answer at every later call position, frames of 0..8 units x 3 contents x 7 addresses / 2 payload values; acknowledgements emitted by regp_process for served reads: 2 transports x 2 memory widths x frame blocks of {128, 160, 256, 512, 1024, 2600} octets x 2 addresses x every size of the list that can fit; sessions across regp_use_channel: 2 initial transports x 0..2 requests x 3 x {use_channel(serial|tcp); 1|2 requests}"
+                       : "19 emitters x 2 transports x 2 memory widths x answered type x 7 addresses x 4 sequence numbers x sizes {0..20, boundary sizes up to 1000} x 4 contents (octet payloads at an even and an odd address, sixteen bit payloads 0 and 2 octets behind an aligned address, boundary sizes also 4 and 6) / 6 payload values x request option bits (word size equal/different; all 8 combinations for blocks <= 4; request frames as returned by the responder's own regp_recv, refused variants left out) x 3 receivers (block of 4096; blocks whose capacity, learned from the receiver's own answers to reference requests, is exactly the frame length / one octet more); 65537 consecutive requests per transport; sink answers: 19 emitters x 2 transports x 2 memory widths x octet/chunk sink x {EAGAIN, EINTR, short write 1, short write n-1, zero-length write, EIO} at every call position x a second answer at the following call, frames of 0..5 units x 3 contents x 2 addresses / 2 payload values; acknowledgements emitted by regp_process for served reads: 2 transports x 2 memory widths x frame blocks of {128, 160, 256, 512, 1024, 2600} octets x 2 addresses x every size of the list that can fit; sessions across regp_use_channel: 2 initial transports x 0..2 requests x 3 x {use_channel(serial|tcp); 1|2 requests}");
     return 0;
 }
